@@ -201,13 +201,13 @@ PROPS = {
     },
     "C02": {
         "props_file": "Props/C02.v",
-        "theorems": ["c02_key_roundtrip", "c02_key_injective", "c02_name_injective"],
-        "families": [{"name": "keys", "n_quick": 1500, "n_thorough": 40000}],
-        "rule": "seeded generator of (key, unix time) pairs and malformed key strings; a case is non-trivial when the call succeeds; distinct by input",
-        "trusted": ["Coq.Numbers.DecimalString/DecimalZ as the definition of decimal printing (compared with Go's %v / strconv.Atoi by the keys stream)"],
-        "assumptions": ["API-server name uniqueness within a namespace"],
-        "level_text": "Theorems (all inputs): key round trip, key and Job-name injectivity; model tied to the code by a differential stream over Join/Split/GenerateName.",
-        "level_note": "Trusted: Coq kernel + vm_compute, the harness, DecimalString as the meaning of %v; API-server name uniqueness is assumed.",
+        "theorems": ["c02_key_roundtrip", "c02_key_injective", "c02_name_injective", "c02_at_most_one", "c02_identity", "c02_created_identity", "c02_idempotent"],
+        "families": [{"name": "keys", "n_quick": 1500, "n_thorough": 40000}, {"name": "recon", "n_quick": 400, "n_thorough": 12000}],
+        "rule": "keys: seeded generator of (key, unix time) pairs and malformed key strings; non-trivial when the call succeeds; distinct by input. recon: histories of 12-60 ops on the real croncontroller.Reconciler + ExecutionControl under reconciler.Controller.work: schedule requests for 5 JobConfig names (dots and dashes) x 5 times with duplicates, out-of-order re-deliveries and malformed keys; JobConfigs created/replaced (new UID)/deleted, with Forbid/maxConcurrency/status.queued limits and templates that themselves carry the schedule-time annotation or the jobconfig-uid label; Job-cache deliveries one at a time; injected server errors and Invalid responses on create; AlreadyExists from the API's name uniqueness; rate-limited re-adds fired at arbitrary points; restarts (queue lost, cache re-listed, requests repeated); Job deletions; active-count and maxEnqueuedJobs changes. Observed after every op: Jobs in the API with identity fields, queue ready/delayed, outcome. non-trivial = more than one Job created; distinct by op list",
+        "trusted": ["Coq.Numbers.DecimalString/DecimalZ as the definition of decimal printing (compared with Go's %v / strconv.Atoi by the keys stream)", "the active-job store is a stub returning a history-controlled count; the event recorder is a stub"],
+        "assumptions": ["API-server name uniqueness within a namespace is part of the API model (create of an existing name fails with AlreadyExists)", "at-most-one is stated per (owner JobConfig name, schedule time); with the identity theorem it is per UID whenever one UID is only ever used under one name (Kubernetes UIDs)", "Jobs created by other actors under a colliding name are not generated"],
+        "level_text": "Theorems (all inputs / all histories): key round trip, key and Job-name injectivity; in every reachable state of the reconciler world (queue, retries, lagging/empty cache, faults, restarts, deletions) Job names are unique and every Job has name = f(owner name, t), annotation = t, UID label = owner UID, hence at most one Job per JobConfig and schedule time; a created Job carries the identity of the cached JobConfig whatever its template says; re-processing an existing schedule time never changes the API. Model tied to the real Reconciler/ExecutionControl/NewJobFromJobConfig/reconciler.Controller by the recon stream; independent monitor groups the API Jobs by (owner UID, annotation).",
+        "level_note": "Trusted: Coq kernel + vm_compute, the harness (SimQueue, create reactor), DecimalString as the meaning of %v.",
     },
 }
 
